@@ -24,6 +24,7 @@ import (
 	"os"
 	"strings"
 	"syscall"
+	"time"
 
 	"tkestack.io/kvass/pkg/prom"
 )
@@ -174,11 +175,23 @@ func cmdProxy(args []string) error {
 	}
 	defer cleanupDir(dir)
 	world := newSideWorld(dir, sideCfgYAML)
-	srv := httptest.NewUnstartedServer(world.proxy)
-	srv.Config.ErrorLog = log.New(io.Discard, "", 0)
-	srv.Start()
-	defer srv.Close()
-	pu, _ := url.Parse(srv.URL)
+	// the proxy is served the way the sidecar serves it: through Proxy.Run on an address of its own
+	ln, err := net.Listen("tcp", "127.0.0.1:0")
+	if err != nil {
+		return err
+	}
+	addr := ln.Addr().String()
+	_ = ln.Close()
+	log.SetOutput(io.Discard) // net/http reports aborted handlers on the standard logger
+	go func() { _ = world.proxy.Run(addr) }()
+	for i := 0; i < 200; i++ {
+		if c, err := net.DialTimeout("tcp", addr, 100*time.Millisecond); err == nil {
+			_ = c.Close()
+			break
+		}
+		time.Sleep(10 * time.Millisecond)
+	}
+	pu, _ := url.Parse("http://" + addr)
 	n := 0
 	return readNDJSON(*in, func(line []byte) error {
 		var c pxCase
